@@ -541,6 +541,12 @@ static int pki_certificate_getValidityTime(const KSI_PKICertificate *cert, int t
 		t = X509_get_notBefore(cert->x509);
 	}
 
+	/* The decoder accepts any octets as a time value: the digits read below must be there. */
+	if (t == NULL || !ASN1_TIME_check(t)) {
+		res = KSI_INVALID_FORMAT;
+		goto cleanup;
+	}
+
 	*time = ASN1_GetTimeT(t);
 
 	res = KSI_OK;
